@@ -24,7 +24,8 @@ META = {
             "source (go/ast) and must be among those the model assumes. partial: all other handler code is only observed: each of "
             "the routes of the real table x generated requests (odd methods, malformed/encoded paths, duplicate and malformed query "
             "parameters, Range/Accept/Authorization/Content-Type variants, invalid/truncated/wrongly typed JSON bodies, as admin, "
-            "user and unauthenticated) through ServeHTTP on httptest with reportRequestPanic instrumented; service routes loaded "
+            "user and unauthenticated; Range headers on real asset files; structured row payloads with case-varied reserved keys, nulls "
+            "and nested values on a real SQLite table) through ServeHTTP on httptest with reportRequestPanic instrumented; service routes loaded "
             "from lib/services, OAuth/WebAuthn flows beyond their first request and real network I/O are not covered",
     "note": "Trusted: Coq kernel; hand-written kernel models (tied by the correspondence run and the site obligation); harness/C40 "
             "(overlays, instrumented serve.go), harness/C32 route dumper, harness/C07/sitedump; net/url, strings.Split/SplitN, "
@@ -68,7 +69,13 @@ BODIES = [b"", b"{", b"}", b"[]", b"[\"\"]", b"[\"\", \"ego.table.read\"]", b"[\
           b"{\"id\":\"\"}", b"{\"tokens\":[\"\"]}", b"[\"\", null]", b"{\"prompt\":\"\"}", b"{\"name\":\"x\",\"columns\":null}"]
 METHODS = ["GET", "POST", "PUT", "PATCH", "DELETE", "HEAD", "OPTIONS", "TRACE", "CONNECT", "get", "FOO", "G\u00c9T", "PROPFIND", "P" * 50]
 CREDS = ["admin", "admin", "admin", "bearer-admin", "user", "bearer-user", "none", "badbasic", "bearer-junk"]
-RANGES = ["bytes=0-", "bytes=5", "bytes=-", "bytes=1-0", "bytes=a-b", "bytes=9999999999999999999-", "bytes=0-0,1-1", "", "=", "bytes", "bytes=--1"]
+RANGES = ["bytes=0-", "bytes=5", "bytes=-", "bytes=1-0", "bytes=a-b", "bytes=9999999999999999999-", "bytes=0-0,1-1", "", "=", "bytes", "bytes=--1",
+          "bytes=0-3", "bytes=5-100000", "bytes=100000-", "bytes=20-25", "bytes=19-19", "bytes=20-", "bytes=21-22", "bytes=100-200", "bytes=1-1",
+          "bytes=4096-9223372036854775806", "bytes=9223372036854775807-9223372036854775807", "bytes=-5", "bytes=0-0", "bytes=7-3", "bytes=0-19,100-200",
+          "bytes=100-200,0-1", "bytes= 1 - 2", "bytes=1-2-3", "bytes=0x1-0x2", "items=0-1"]
+ASSET_FILES = ["style.css", "assets/style.css", "a.txt", "assets/a.txt", "assets/sub/one.txt", "sub/one.txt", "nofile.txt", "", "../users.db", "style.css/"]
+ROWKEYS = ["a", "b", "a", "b", "_row_id_", "_ROW_ID_", "_Row_Id_", "_row_id_ ", "A", "B", "c", "", "a b", "rows", "count", "\u00e9"]
+ROWVALS = [1, 2, "x", None, None, 1.5, True, [], {}, {"n": 1}, [1, 2], "", -1, 1e99, "y" * 300, "abc", 0, "1", 9223372036854775807]
 
 
 def hx(b):
@@ -79,7 +86,7 @@ def esc(v):
     return "".join(c if (c.isalnum() or c in "-._~%") and ord(c) < 128 else "".join("%%%02X" % b for b in c.encode("utf8")) for c in v)
 
 
-def gen_requests(rng, routes, n_per_route, tmp):
+def gen_requests(rng, routes, n_per_route, tmp, n_rows=0, assets=True):
     """routes: list of (endpoint, method). Returns list of request dicts; the first ones set up a DSN and a table."""
     J = {"Content-Type": ["application/json"], "Accept": ["application/json"]}
     reqs = [
@@ -99,6 +106,15 @@ def gen_requests(rng, routes, n_per_route, tmp):
         dict(method="GET", target="/dsns/?start=-1", headers={"Accept": ["application/vnd.ego.dsns+json"]}, body="", cred="admin"),
         dict(method="GET", target="/admin/tokens/?start=-1", headers={"Accept": ["application/json"]}, body="", cred="admin"),
         dict(method="GET", target="/admin/users/?start=7&limit=1", headers={"Accept": ["application/vnd.ego.users+json"]}, body="", cred="admin"),
+        dict(method="PATCH", target="/dsns/d1/tables/t1/rows", headers=J, body=hx('{"_ROW_ID_":null}'), cred="admin"),
+        dict(method="PATCH", target="/dsns/d1/tables/t1/rows", headers={"Content-Type": ["application/vnd.ego.rows+json"], "Accept": ["application/vnd.ego.rowcount+json"]},
+             body=hx('{"rows":[{"_Row_Id_":null,"b":"x"}],"count":1}'), cred="admin"),
+        dict(method="PATCH", target="/dsns/d1/tables/t1/rows?filter=EQ(a,1)", headers=J, body=hx('{"_row_id_":null,"_ROW_ID_":null,"A":null}'), cred="bearer-admin"),
+        dict(method="PUT", target="/dsns/d1/tables/t1/rows?upsert", headers=J, body=hx('{"_ROW_ID_":null,"a":1}'), cred="admin"),
+        dict(method="PUT", target="/dsns/d1/tables/t1/rows", headers={"Content-Type": ["application/json"], "Accept": ["application/vnd.ego.rows.abstract+json"]},
+             body=hx('{"columns":[{"name":"a","type":"int"}],"rows":[[1],[],[1,2,3]]}'), cred="admin"),
+        dict(method="GET", target="/assets/style.css", headers={"Range": ["bytes=100-200"]}, body="", cred="none"),
+        dict(method="HEAD", target="/assets/assets/a.txt", headers={"Range": ["bytes=21-22"]}, body="", cred="none"),
         dict(method="GET", target="/dsns/nodsn/begin", headers={}, body="", cred="admin"),
         dict(method="GET", target="/dsns/d1/begin?expires=zz", headers={}, body="", cred="admin"),
         dict(method="GET", target="/assets/x.txt", headers={"Range": ["bytes=5"]}, body="", cred="none"),
@@ -107,6 +123,39 @@ def gen_requests(rng, routes, n_per_route, tmp):
         dict(method="GET", target="/ui", headers={"Accept": [";,;;q"]}, body="", cred="none"),
     ]
     nfixed = len(reqs)
+    # ---- asset routes: real files x Range headers (both bounds explicit, start past EOF, reversed, huge, several ranges)
+    for fn in (ASSET_FILES if assets else []):
+        for rg in (RANGES if fn in ASSET_FILES[:5] else RANGES[11:17]):
+            reqs.append(dict(method=rng.choice(["GET", "GET", "HEAD"]), target="/assets/" + fn, headers={"Range": [rg]}, body="", cred="none"))
+    # ---- row routes on the real table d1.t1: structured payloads with case-varied reserved keys, nulls, nested values
+    def row(rng):
+        o = []
+        for _ in range(rng.choice([0, 1, 1, 2, 2, 3, 4])):
+            k2 = rng.choice(ROWKEYS)
+            # reserved keys in odd spellings get the odd values (null, nested) half of the time
+            o.append((k2, rng.choice([None, None, {}, [], ""]) if k2.strip().lower() == "_row_id_" and rng.random() < 0.5 else rng.choice(ROWVALS)))
+        return "{" + ", ".join("%s: %s" % (json.dumps(k2), json.dumps(v)) for k2, v in o) + "}"       # duplicate keys are kept
+    rowmedia = ["application/vnd.ego.rows+json", "application/json", "*/*", "application/vnd.ego.rowcount+json", "application/vnd.ego.rows.abstract+json"]
+    for _ in range(n_rows):
+        m = rng.choice(["PATCH", "PATCH", "PATCH", "PUT", "PUT", "DELETE", "GET"])
+        form = rng.random()
+        if form < 0.45:
+            body = row(rng)
+        elif form < 0.65:
+            body = "[" + ", ".join(row(rng) for _ in range(rng.randint(0, 3))) + "]"
+        elif form < 0.9:
+            body = "{\"rows\": [" + ", ".join(row(rng) for _ in range(rng.randint(0, 3))) + "], \"count\": %d}" % rng.randint(-1, 3)
+        else:
+            body = json.dumps({"columns": [{"name": rng.choice(ROWKEYS), "type": rng.choice(["int", "string", "", "zz"])} for _ in range(rng.randint(0, 3))],
+                               "rows": [[rng.choice(ROWVALS) for _ in range(rng.randint(0, 3))] for _ in range(rng.randint(0, 2))]})
+        q = []
+        for _ in range(rng.choice([0, 0, 0, 1, 1, 2])):
+            q.append(rng.choice(["filter=EQ(a,1)", "filter=EQ(_row_id_,\"x\")", "filter=EQ(", "upsert", "upsert=a", "upsert=_ROW_ID_", "columns=a,b", "columns=_Row_Id_",
+                                 "columns=", "sort=a", "sort=~b", "limit=1", "start=1", "abstract=true", "abstract", "count=true", "user=bob", "transaction=zz"]))
+        tgt = rng.choice(["/dsns/d1/tables/t1/rows"] * 8 + ["/dsns/d1/tables/T1/rows", "/dsns/d1/tables/t1/rows/", "/dsns/d1/tables/nosuch/rows", "/dsns/D1/tables/t1/rows"])
+        reqs.append(dict(method=m, target=tgt + ("?" + "&".join(q) if q else ""),
+                         headers={"Content-Type": [rng.choice(rowmedia[:2] * 3 + rowmedia)], "Accept": [rng.choice(rowmedia)]}, body=hx(body),
+                         cred=rng.choice(["admin", "admin", "admin", "bearer-admin", "user"])))
     for ep, method in routes:
         if "down" in ep or "shutdown" in ep:
             creds = ["none", "user", "badbasic", "bearer-junk", "bearer-user"]     # never stop the harness process
@@ -115,7 +164,8 @@ def gen_requests(rng, routes, n_per_route, tmp):
         for _ in range(n_per_route):
             path = ep
             for var in re.findall(r"\{\{[^}]*\}\}", ep):
-                v = rng.choice(VARS[:6] * 3 + VARS)
+                real = {"{{dsn}}": "d1", "{{table}}": "t1", "{{name}}": "bob", "{{item...}}": "style.css"}.get(var)
+                v = real if real and rng.random() < 0.6 else rng.choice(VARS[:6] * 3 + VARS)
                 path = path.replace(var, v if v.startswith("%") else esc(v), 1)
             r = rng.random()
             if r < 0.1:
@@ -449,9 +499,9 @@ def run(ck):
     ck.cov["input_distribution"]["routes_in_real_table"] = len(routes)
     tmp = os.path.join(ck.work, "srvroot")
     if replay and "request" in replay:
-        reqs = gen_requests(rng, [], 0, tmp)[:3] + [dict(replay["request"], id=3)]
+        reqs = gen_requests(rng, [], 0, tmp, assets=False)[:3] + [dict(replay["request"], id=3)]
     else:
-        reqs = gen_requests(rng, routes, 9 if quick else 120, tmp)
+        reqs = gen_requests(rng, routes, 5 if quick else 100, tmp, n_rows=(150 if quick else 3000))
     results, deaths, tokens = run_routes(ck, built["routes"][1], reqs, budget_s=(50 if quick else 800))
     if tokens is None or tokens[0] == 0:
         ck.notes.append("admin logon through /services/admin/logon gave no token (bearer-admin requests run unauthenticated)")
@@ -476,7 +526,7 @@ def run(ck):
         ck.notes.append("process ended without a Go panic while serving %s %s (cred %s); resumed after it" % (
             reqs[i]["method"], reqs[i]["target"][:120], reqs[i]["cred"]))
     ck.cov["evaluations"] += len(results)
-    ck.cov["input_distribution"].update({"requests_planned": len(reqs), "requests_done": len(results), "status_histogram": status_hist,
+    ck.cov["input_distribution"].update({"requests_planned": len(reqs), "asset_range_requests": 5 * len(RANGES) + 5 * 6, "row_payload_requests": 150 if quick else 3000, "requests_done": len(results), "status_histogram": status_hist,
                                          "setup_statuses (dsn, table, rows)": setup_ok, "tokens (admin,user) lengths": tokens,
                                          "process_deaths": len(deaths)})
     ck.cov["distinct_nontrivial"] = len(nontriv) + len(reached)
